@@ -43,8 +43,8 @@ OVERLAY="$BUILD/overlay-plain-$id.json"
 BIN="$BUILD/$id"
 if [ -f "$HERE/mc/cmd/$id/SCHED" ]; then
   # scheduler build: instrumented copies of the concurrency-relevant packages
-  (go build $MODFLAG -o "$BUILD/instr" ./cmd/instr) || { echo "BUILD-ERROR instr"; exit 2; }
-  "$BUILD/instr" -repo "$REPO" -out "$BUILD/sched-src" -overlay "$BUILD/overlay-sched-$id.json" -plain "$BUILD/overlay-plain-$id.json" || { echo "BUILD-ERROR instr run"; exit 2; }
+  (go build $MODFLAG -o "$BUILD/instr-$id" ./cmd/instr) || { echo "BUILD-ERROR instr"; exit 2; }
+  "$BUILD/instr-$id" -repo "$REPO" -out "$BUILD/sched-src-$id" -overlay "$BUILD/overlay-sched-$id.json" -plain "$BUILD/overlay-plain-$id.json" || { echo "BUILD-ERROR instr run"; exit 2; }
   OVERLAY="$BUILD/overlay-sched-$id.json"
 fi
 if ! go build $MODFLAG -overlay "$OVERLAY" -o "$BIN" "./cmd/$id" 2> "$BUILD/$id.build.log"; then
@@ -52,6 +52,7 @@ if ! go build $MODFLAG -overlay "$OVERLAY" -o "$BIN" "./cmd/$id" 2> "$BUILD/$id.
   echo "BUILD-ERROR: harness for $ID does not build against the current tree (exit 2, no verdict)"
   exit 2
 fi
+if [ -n "${VERIF_BUILD_ONLY:-}" ]; then exit 0; fi
 export VERIF_BIN="$BIN" VERIF_REPO_ROOT="$REPO"
 if [ -z "${TMPDIR:-}" ] && [ -d /dev/shm ]; then export TMPDIR=/dev/shm; fi
 exec "$BIN" "$@"
